@@ -97,8 +97,12 @@ func newNode(head string, dom []any, same, equiv func(a, b any) bool, show func(
 	if len(kids) > 0 {
 		name = head + "(" + strings.Join(names, ",") + ")"
 	}
-	if len(dom) > domCap {
-		dom = dom[:domCap]
+	lim := domCap
+	if head == "Seq" || head == "Slice" {
+		lim = domCap + 2 // the aliasing views
+	}
+	if len(dom) > lim {
+		dom = dom[:lim]
 	}
 	n := &node{name: name, head: head, depth: depth, kids: kids, dom: dom, cSize: len(dom), same: same, equiv: equiv, show: show}
 	n.pickRepresentatives()
@@ -499,40 +503,52 @@ func lexShow(kidAt func(j int) *node, split func(any) []any, open, sep, close st
 	}
 }
 
-// index lists into (x, xa, y); nil = nil slice
-var seqShapes = [][]int{nil, {}, {0}, {1}, {2}, {0, 2}, {2, 0}, {1, 2}}
+// The domain of a sequence type over an element type with representatives x, xa, y contains
+// values that ALIAS one another (an identity fast path in a comparison would only show on these):
+//
+//	base := [x y xa]                      one backing array
+//	0 nil          1 empty
+//	2 base[:2]     a view                 [x y]
+//	3 [x y]        an independent copy of it
+//	4 base         the longer view, same start, [x y xa]
+//	5 base[:1]     a shorter view, same start
+//	6 base[1:]     a view with a different start, [y xa]
+//	7 [y x]   8 [xa]   9 [xa y]           independent values
+//
+// The representatives handed to an enclosing combinator are x = the view, xa = the copy, y = the
+// longer view. (The values are built once: comparisons do not write. The sort scenario builds
+// its inputs inside every execution.)
+func aliasingSlices[T any](k *node) [][]T {
+	x, xa, y := k.x.(T), k.xa.(T), k.y.(T)
+	base := []T{x, y, xa}
+	return [][]T{nil, {}, base[:2], {x, y}, base, base[:1], base[1:], {y, x}, {xa}, {xa, y}}
+}
 
-func buildSlice[T any](k *node, shape []int) []T {
-	if shape == nil {
-		return nil
-	}
-	out := make([]T, 0, len(shape))
-	for _, j := range shape {
-		out = append(out, k.at(j).(T))
-	}
-	return out
+func (n *node) pickAliasing() {
+	d := n.dom
+	n.x, n.xa, n.y = d[2], d[3], d[4]
+	n.rest = append(append([]any{}, d[:2]...), d[5:]...)
 }
 
 func seqOf[T any](k *inst[T]) *inst[fp.Seq[T]] {
 	var dom []any
-	for _, sh := range seqShapes {
-		dom = append(dom, fp.Seq[T](buildSlice[T](k.n, sh)))
+	for _, sl := range aliasingSlices[T](k.n) {
+		dom = append(dom, fp.Seq[T](sl))
 	}
 	split := func(v any) []any { return anys[T](v.(fp.Seq[T])) }
 	kid := func(int) *node { return k.n }
 	n := newNode("Seq", dom, lexSame(kid, split, false), lexSame(kid, split, true), lexShow(kid, split, "[", " ", "]", func(v any) bool { return v.(fp.Seq[T]) == nil }), k.n)
+	n.pickAliasing()
 	n.want, n.wantLaw = lexWant(kid, split), "lexicographic"
 	return finish(n, ord.Seq(k.o))
 }
 
 func sliceOf[T any](k *inst[T]) *inst[[]T] {
-	var dom []any
-	for _, sh := range seqShapes {
-		dom = append(dom, buildSlice[T](k.n, sh))
-	}
+	dom := anys(aliasingSlices[T](k.n))
 	split := func(v any) []any { return anys[T](v.([]T)) }
 	kid := func(int) *node { return k.n }
 	n := newNode("Slice", dom, lexSame(kid, split, false), lexSame(kid, split, true), lexShow(kid, split, "[", " ", "]", func(v any) bool { return v.([]T) == nil }), k.n)
+	n.pickAliasing()
 	n.want, n.wantLaw = lexWant(kid, split), "lexicographic"
 	return finish(n, ord.Slice(k.o))
 }
